@@ -63,7 +63,23 @@ _A = {
 }
 ANCHORS = [f"{f}:{n}" for f, ns in _A.items() for n in ns]
 REQUIRED_REACH = ANCHORS
-MIN_EVALS = {"quick": 20000, "thorough": 200000}
+# every hooked conversion must reach >= 1 decided verdict of its defining-formula oracle (an exception raised by a driver
+# call of a conversion is a failed evaluation of that oracle)
+REQUIRED_ORACLES = [
+    f"{lab}:formula" for lab in (
+        [f"State.{n}" for n in ("to_density_matrix", "to_density_matrix_with_sparsity", "convert_basis")]
+        + [f"state.{n}" for n in _A["quara/objects/state.py"][3:]]
+        + [f"Povm.{n}" for n in ("matrices", "matrices_with_sparsity", "matrix", "matrix_with_sparsity", "convert_basis")]
+        + [f"povm.{n}" for n in _A["quara/objects/povm.py"][5:]]
+        + [f"gate.{n}" for n in _A["quara/objects/gate.py"][:12]]
+        + [n for n in _A["quara/objects/gate.py"][12:]]
+        + [n for n in _A["quara/objects/mprocess.py"]]
+        + ["matrix_basis.convert_vec", "matrix_basis.calc_matrix_expansion_coefficient",
+           "matrix_basis.calc_hermitian_matrix_expansion_coefficient_hermitian_basis",
+           "matrix_basis.calc_mat_from_coefficient_basis"])
+] + ["matrix_basis.get_comp_basis:definition", "CompositeSystem.comp_basis:definition", "matrix_util.truncate_hs:within-eps",
+     "matrix_util.truncate_hs:raises-only-on-imaginary-input"]
+MIN_EVALS = {"quick": 100000, "thorough": 1000000}
 WATCHDOG = {"quick": 900, "thorough": 3600}
 ASSUMPTIONS = [
     "conversions are judged only for orthonormal Hermitian bases of the CompositeSystem (and orthonormal source/target bases of "
@@ -824,11 +840,12 @@ def shards(tier, seed):
         for kind in HERM_KINDS:
             for j in split("gate", "S2", kind, 2, 40, dense_every=4):
                 shard("gate", [j])
-        # qubit x qutrit: the 1296-dimensional HS / Choi input spaces are swept completely for two bases (one per
-        # subsystem order) and with stride 8 for the other two
-        for shape, kind in (("S23", "std"), ("S23p", "nherm")):
-            for j in split("gate", shape, kind, 8, 16, dense_every=16):
-                shard("gate", [j])
+        # qubit x qutrit: the 1296-dimensional HS / Choi input spaces are swept completely for the standard basis, with
+        # stride 4 for quara's Hermitian basis on the permuted system and with stride 8 for the other two
+        for j in split("gate", "S23", "std", 10, 16, dense_every=16):
+            shard("gate", [j])
+        for j in split("gate", "S23p", "nherm", 3, 12, dense_every=16, stride=4):
+            shard("gate", [j])
         for shape, kind in (("S23", "rot"), ("S23p", "nggm")):
             for j in split("gate", shape, kind, 2, 12, dense_every=16, stride=8):
                 shard("gate", [j])
@@ -862,7 +879,9 @@ class Driver:
     def call(self, fn, *a, **kw):
         ok, val = self.ctx.attempt(fn, *a, **kw)
         if not ok:
-            self.ctx.violation(f"{self.name_of(fn)}:{self.ctx.exc_key(val)}", {"cls": self.M.cls, "msg": str(val)[:200]})
+            # an exception from a conversion defined on its input: a failed evaluation of that conversion's oracle
+            nm = self.name_of(fn)
+            self.ctx.truth(f"{nm}:formula", False, key=f"{nm}:{self.ctx.exc_key(val)}", info={"cls": self.M.cls, "msg": str(val)[:200]})
             return None
         return val
 
@@ -1101,11 +1120,13 @@ def cp_kraus(d, rng, k):
     """complex Kraus set of a CP map; rank cycles through 1..d^2; kinds: TP, trace-decreasing, scaled"""
     r = 1 + (k % (d * d))
     ks = ref.rand_kraus(d, r, rng)
-    kind = ["tp", "tp", "sub", "scaled"][int(rng.integers(0, 4))]
+    kind = ["tp", "tp", "sub", "scaled", "spread"][int(rng.integers(0, 5))]
     if kind == "sub" and r > 1:
         ks = ks[: max(1, r // 2)]
     elif kind == "scaled":
         ks = [np.sqrt(2.5) * x for x in ks]
+    elif kind == "spread":  # Choi eigenvalues spread over several decades (still far above the truncation threshold)
+        ks = [10.0 ** (-rng.uniform(0, 3)) * x for x in ks]
     return ks, kind, r
 
 
